@@ -34,6 +34,17 @@ Theorem C19_out_of_range_error_is_max_instance :
           Gen.ClangDelta.skeletons = true.
 Proof. vm_compute. reflexivity. Qed.
 
+(* the shared driver (TransformationManager::doTransformation): with --query-instances the output is
+   neither opened nor written, for every behaviour of its other conditions *)
+Theorem C19_driver_query_never_outputs :
+  bounded (fst Gen.ClangDelta.driver_skeleton) (snd Gen.ClangDelta.driver_skeleton) = true /\
+  forall (e : env) (orc : nat -> bool), e_query e = true ->
+    s_rewrote (exec e orc (snd Gen.ClangDelta.driver_skeleton) st0) = false.
+Proof.
+  assert (B : bounded (fst Gen.ClangDelta.driver_skeleton) (snd Gen.ClangDelta.driver_skeleton) = true) by (vm_compute; reflexivity).
+  split; [exact B|]. apply (query_safe_sound _ _ B). vm_compute. reflexivity.
+Qed.
+
 (* each transformation name is registered once *)
 Theorem C19_registrations_nodup :
   nodup_str (map (fun r => fst (fst r)) Gen.ClangDelta.registrations) = true.
